@@ -306,6 +306,13 @@ wrapped_interval<Number> wrapped_interval<Number>::Shl(uint64_t k) const {
     return *this;
 
   wrapint::bitwidth_t b = get_bitwidth(__LINE__);
+  if (k == 0) {
+    return *this;
+  }
+  if (k >= b) {
+    // shifting by the bitwidth or more has no defined result
+    return wrapped_interval<Number>::top();
+  }
   wrapped_interval<Number> y = Trunc(b - k);
   if (!y.is_top()) {
     wrapint wk(k, b);
@@ -326,8 +333,12 @@ wrapped_interval<Number> wrapped_interval<Number>::LShr(uint64_t k) const {
   if (is_top())
     return *this;
 
+  wrapint::bitwidth_t b = get_bitwidth(__LINE__);
+  if (k >= b) {
+    // shifting by the bitwidth or more has no defined result
+    return wrapped_interval<Number>::top();
+  }
   if (!cross_unsigned_limit()) {
-    wrapint::bitwidth_t b = get_bitwidth(__LINE__);
     wrapint wk(k, b);
     return wrapped_interval<Number>(start().lshr(wk), end().lshr(wk));
   } else {
@@ -346,8 +357,12 @@ wrapped_interval<Number> wrapped_interval<Number>::AShr(uint64_t k) const {
   if (is_top())
     return *this;
 
+  wrapint::bitwidth_t b = get_bitwidth(__LINE__);
+  if (k >= b) {
+    // shifting by the bitwidth or more has no defined result
+    return wrapped_interval<Number>::top();
+  }
   if (!cross_signed_limit()) {
-    wrapint::bitwidth_t b = get_bitwidth(__LINE__);
     wrapint wk(k, b);
     return wrapped_interval<Number>(start().ashr(wk), end().ashr(wk));
   } else {
